@@ -490,7 +490,8 @@ theorem leafField_sound (ho : RealSimdLike o) (env : Nat → K) {path : Path} (h
     input, in every ordered-field semantics; for the multi-term classes under the side condition that neither
     evaluation divides by zero (and, for `sqrtsq`, that the square roots taken are those of non-negative numbers) -/
 theorem outOKR_sound (ho : RealSimdLike o) (m : Mode) (p s : Unit) (j : Nat) (h : outOKR m p s j = true)
-    (env : Nat → K) (hd : m ≠ .ident → DivOK o env m p s j) (hs : m = .sqrtsq → SqrtOK o env m p s j) :
+    (env : Nat → K) (hd : m ≠ .ident → DivOK o env m p s j) (hs : m = .sqrtsq → SqrtOK o env m p s j)
+    (hz : m = .sqrtsq → o.call1 .sqrt (o.lit 0 1) = o.lit 0 1) :
     (p.out j).eval o env = (s.out j).eval o env := by
   unfold outOKR at h
   obtain ⟨path, hp, hl⟩ := treeEqv_sound (impliedLin_sound ho.linLike env) _ _ h (by intro cb hcb; cases hcb)
@@ -500,12 +501,27 @@ theorem outOKR_sound (ho : RealSimdLike o) (m : Mode) (p s : Unit) (j : Nat) (h 
   | ident => exact leafIdent_sound ho.linLike env hp hl
   | field => exact leafField_sound ho env hp hl (hd (by simp)).1 (hd (by simp)).2
   | sqrtsq =>
-    simp only [leafOf, leafSqrt, Bool.or_eq_true] at hl
+    simp only [leafOf, leafSqrt, Bool.or_eq_true, List.any_eq_true] at hl
     have hdd := hd (by simp)
-    rcases hl with hl | hl | hl
+    have hz0 : ∀ q ∈ [sqrtZero], q.1.eval o env = q.2.eval o env := by
+      intro q hq; simp only [List.mem_singleton] at hq; subst hq
+      simp only [sqrtZero, E.eval]; exact hz rfl
+    rcases hl with (hl | hl | hl) | ⟨σ, hσ, hl⟩
     · exact leafField_sound ho env hp hl hdd.1 hdd.2
     · exact fracEqMod_sound ho.toFieldLike hl env (hs rfl) hdd.1 hdd.2
     · exact fracEqMod_sound ho.toFieldLike hl env (hs rfl) hdd.1 hdd.2
+    · have he := eqCandsLin_sound ho.linLike env (normPath_sound' ho.linLike env hp) hσ
+      rcases hl with hl | hl
+      · have h1 : ∀ q ∈ [σ], q.1.eval o env = q.2.eval o env := by
+          intro q hq; simp only [List.mem_singleton] at hq; subst hq; exact he
+        have := identEq_sound ho.linLike env _ _ hl
+        rw [E.rewrite_sound o env hz0, E.rewrite_sound o env hz0, E.rewrite_sound o env h1, E.rewrite_sound o env h1] at this
+        exact this
+      · have h1 : ∀ q ∈ [(σ.2, σ.1)], q.1.eval o env = q.2.eval o env := by
+          intro q hq; simp only [List.mem_singleton] at hq; subst hq; exact he.symm
+        have := identEq_sound ho.linLike env _ _ hl
+        rw [E.rewrite_sound o env hz0, E.rewrite_sound o env hz0, E.rewrite_sound o env h1, E.rewrite_sound o env h1] at this
+        exact this
 
 end real
 end Glm
